@@ -190,6 +190,21 @@ def run(model, col, tier):
             wrong41.append(f"[{'one letter' if single else 'several letters' if single is False else 'unconditionally'}] -> {rt_}")
     col.check(one and many and not wrong41, "R04.1",
               f"{CT}::ComputeSwizzleType", "one letter -> component type, n letters -> vector of n components", "the swizzle's type is not (component type | vector of len(mask))", CT, cst)
+    # which masks are swizzles at all: the validator rejects exactly unknown letters, missing components and mixed families
+    # (= R13.4, the fold over sample masks): a mask may repeat components and be longer than its source
+    from . import c13 as _c13_41
+    from ..report import Collector
+
+    sub41 = Collector("C13")
+    _c13_41.run(model, sub41, "quick")
+    n41 = 0
+    for ob in sub41.obligations:
+        if ob.rule == "R13.4" and "ValidateSwizzleMask" in ob.construct:
+            ob.detail = "[R13.4] " + (ob.detail or "")
+            ob.rule = "R04.1"
+            col.obligations.append(ob)
+            n41 += 1
+    col.floor("R04.1", "mask-validator obligations shared with C13", n41, 3)
     # ---------------- R04.2 ------------------------------------------------------
     # all comparisons are made on expressions with the handler's single-assignment locals inlined, so that the rule does not
     # depend on what the locals are called; VAL is "the lowered parent", MASK "the member's name"
@@ -451,7 +466,9 @@ def run(model, col, tier):
     sub = Collector("C15")
     c15.run(model, sub, "quick")
     for ob in sub.obligations:
-        if ob.rule == "R15.4":
+        if ob.rule == "R15.4" or (ob.rule == "R15.5" and "CreateConstant" in ob.construct):
+            # (R15.5: a constant is bound by reference in every activation and every VM of the program, so it must be an immutable
+            # scalar - a vector constant is one list object that all its "copies" share)
             ob.rule = "R04.6"
             col.obligations.append(ob)
     # a swizzle read is `shuffle v, v`: both operand slots name the same value and both must follow a rewrite of that value (= R02.1 for the shuffle)
